@@ -44,7 +44,8 @@ func (c *Ctx) CreatedIsChecked(prop string) {
 		}
 		for _, K := range Calls(fn, func(ci ssa.CallInstruction) bool {
 			cc := ci.Common()
-			isCheck := (cc.StaticCallee() != nil && auth[cc.StaticCallee()]) || (cc.IsInvoke() && namedIs(cc.Value.Type(), pkgChecker, "Service") && cc.Method.Name() == "Check")
+			isCheck := (cc.StaticCallee() != nil && auth[cc.StaticCallee()]) || (cc.IsInvoke() && namedIs(cc.Value.Type(), pkgChecker, "Service") && cc.Method.Name() == "Check") ||
+				(!cc.IsInvoke() && c.boolAuthHelper(cc.StaticCallee(), auth, succOf(c), 0))
 			if !isCheck {
 				return false
 			}
@@ -241,4 +242,9 @@ func nameFromChecked(v ssa.Value, S ssa.Value, depth int) string {
 		return "a constant: " + an.Term(v)
 	}
 	return "an unrecognised value: " + an.Term(v)
+}
+
+func succOf(c *Ctx) int64 {
+	v, _ := c.EnumConst("C07.O3 authorise-before-act", pkgCore, "ResultSucceeded")
+	return v
 }
